@@ -98,7 +98,9 @@ func c05(r *mon.Run) {
 	sw := []func(string) string{func(s string) string { return s }, func(s string) string { return "é😀 | " + s }, func(s string) string { return "[" + s }, func(s string) string { return "a[?" + s }, func(s string) string { return "\n\t " + s }}
 	ws = append(ws, mon.Workload{Name: "error-sites", N: len(errorSiteSeeds) * len(sw),
 		Describe: func(i int) string { return sw[i%len(sw)](errorSiteSeeds[i/len(sw)]) },
-		Do: func(i int, t *mon.Tally) { c05Case(r, t, "error-sites", i, sw[i%len(sw)](errorSiteSeeds[i/len(sw)]), hd) }})
+		Do: func(i int, t *mon.Tally) {
+			c05Case(r, t, "error-sites", i, sw[i%len(sw)](errorSiteSeeds[i/len(sw)]), hd)
+		}})
 	// every built-in function on edge strings / values (scanner and conversion code inside the handlers)
 	edge := []string{"", " ", "1e", "1E-", "12.5e+", "-", "+", ".", "1.", ".5", "-.", "0x", "0x1p", "1e999", "-1e999", "00", "01", "1_0", "١", "NaN", "Inf", "-0", "1e-999", "9223372036854775808",
 		"\x00", "a\x00b", "\xff", "\xe2\x82", "é", "😀", "\u2028", "'", "\\", "[", "{", "null", "true", "\"q\"", "[1", "{\"a\":", "1 2", strings.Repeat("9", 400), strings.Repeat("a", 70000)}
